@@ -38,6 +38,10 @@ func (p c18) Run(c *core.Ctx) {
 		p.repeated(c)
 		return
 	}
+	if c.Index%24 == 11 {
+		p.behindOptional(c)
+		return
+	}
 	switch c.Index % 3 {
 	case 0:
 		p.expression(c)
@@ -624,4 +628,44 @@ func (p c18) repeated(c *core.Ctx) {
 		}
 	}
 	c.Nontrivial(fmt.Sprint("repeated1|", val, attempts))
+}
+
+// behindOptional: validation guards the start also for a component that is only reachable through an
+// optional injection point of an eager one (a lazy candidate): an objection to its bound value fails the
+// start instead of quietly leaving the optional point empty.
+func (p c18) behindOptional(c *core.Ctx) {
+	n := c.Rng.Intn(12)
+	cons := genConstraintsFor(c, "int")
+	objects, pan := verdict(n, cons)
+	if pan != nil {
+		return
+	}
+	g := world.NewG(c.Rng)
+	lz := g.AddNode([]int{8, 11}[c.Rng.Intn(2)], "lazy-validated") // lazy IA types
+	g.Sc.Nodes[lz].Cfg = map[string]world.TagSpec{"CfgI": {Tag: "value", Val: "${bv.n},validate=" + cons}}
+	h := g.AddRandomNode(world.TypesEagerPlain, 0.2)
+	if c.Rng.Intn(2) == 0 {
+		g.SetTag(h, "IA0", "wire", "lazy-validated,required=false")
+	} else {
+		g.SetTag(h, "SA0", "wire", ",required=false") // by type: the lazy component is a candidate
+	}
+	g.Sc.Config = fmt.Sprintf("bv:\n  n: %d\n", n)
+	g.ShuffleOrders()
+	r := world.Start(g.Sc, world.Options{NoTracer: true})
+	c.Count("starts", 1)
+	detail := failDetail(g.Sc, r, map[string]any{"constraints": cons, "bound_value": n, "validator_objects": objects})
+	if abnormal(r.Outcome()) {
+		c.Fail("", "start: "+core.Short(r.OutcomeDetail(), 300), detail)
+		return
+	}
+	if objects != (r.Outcome() == "error") {
+		c.Fail("", fmt.Sprintf("a lazy component reachable through an optional point binds %d under %q: validator objects=%v, start outcome %s", n, cons, objects, r.Outcome()), detail)
+		return
+	}
+	if !objects && r.Nodes[lz].Slot().CfgI != n {
+		c.Fail("", fmt.Sprintf("the lazy component holds %d, configured %d", r.Nodes[lz].Slot().CfgI, n), detail)
+		return
+	}
+	c.Count("validated_behind_optional_points", 1)
+	c.Nontrivial(fmt.Sprintf("behindopt|%d|%s", n, cons))
 }
